@@ -1385,6 +1385,9 @@ def c20_programs(tier, sd):
         (f2, [E(["<", a, b]), E(["<", b, lit(3)]), O(["a"], ["b"])]),                                   # a in {0,1}: most of a's range infeasible
         (f2, [["unique", [a, b]], E(["<", b, lit(8)]), O(["a"], ["b"])]),
         (f2, [E(["<", a, b]), O(["a", "c"], ["b"]), E(["==", c, ["slit", -2, 4]])]),
+        # fields of the ordered rand set that take part in no ordering
+        (f2, [E(["<", a, b]), E(["!=", c, b]), O(["a"], ["b"])]),
+        (f2, [E(["<", a, b]), E(["<", c, a]), E([">", F("n"), c]), O(["b"], ["a"])]),
         # chains whose constraints mention the later members first
         (f2, [["if", [[["!=", c, lit(0)], [E(["!=", b, lit(0)])]]], None], E(["<=", a, b]), O(["a"], ["b"]), O(["b"], ["c"])]),
         (f2, [E([">", c, ["slit", -8, 4]]), ["implies", [">", c, lit(0)], [E([">", b, a])]], O(["b"], ["c"]), O(["a"], ["b"])]),
